@@ -1603,10 +1603,14 @@ def execute(schedule, ctx):
                 key = recent_keys[op['k'] % len(recent_keys)]
                 nm = key['name']
 
+                hashed = type(d['span']).__module__.startswith('pandas')  # (a pandas index finds labels by hash)
+
                 def where(lbl):
                     for j_, o_ in enumerate(party.labels):
                         try:
                             if bool(o_ == lbl):
+                                if hashed and hash(o_) != hash(lbl):
+                                    return 'unspecified'  # equal but hashed differently (a date and a datetime64): pandas' own semantics decide
                                 return j_
                             # the exact string form of a period / timestamp addresses it only on a pandas time index
                             if isinstance(lbl, str) and type(d['span']).__name__ in ('PeriodIndex', 'DatetimeIndex') and str(o_) == lbl:
@@ -1619,7 +1623,9 @@ def execute(schedule, ctx):
                     outcome = 'skipped'
                 elif 'single' in key:
                     p_ = where(key['single'])
-                    if p_ is None:
+                    if p_ == 'unspecified':
+                        outcome = 'skipped'
+                    elif p_ is None:
                         e = attempt(lambda: x[nm, key['single']])
                         ctx.check('C10', 'reused-label/absent-here-must-raise-KeyError', isinstance(e, KeyError), {'exc': type(e).__name__ if e else None, 'label': repr(key['single'])})
                         outcome = 'absent'
@@ -1634,7 +1640,9 @@ def execute(schedule, ctx):
                 else:
                     pa = None if key['a'] is None else where(key['a'])
                     pb = None if key['b'] is None else where(key['b'])
-                    if (key['a'] is not None and pa is None) or (key['b'] is not None and pb is None):
+                    if 'unspecified' in (pa, pb):
+                        outcome = 'skipped'
+                    elif (key['a'] is not None and pa is None) or (key['b'] is not None and pb is None):
                         e = attempt(lambda: x[nm, slice(key['a'], key['b'], key['step'])])
                         ctx.check('C10', 'reused-slice/absent-here-must-raise-KeyError', isinstance(e, KeyError), {'exc': type(e).__name__ if e else None})
                         outcome = 'absent'
